@@ -3,11 +3,13 @@
 //! an ndjson event log that TLC validates against a Trace*.tla specification.
 mod codec;
 mod diag;
+mod gsd;
 mod prm;
 mod dp;
 mod ring;
 mod rx;
 mod single;
+mod sweep;
 mod util;
 mod vbus;
 mod world;
@@ -28,6 +30,8 @@ fn main() {
         "rx" => rx::run(&args),
         "diag" => diag::run(&args),
         "prm" => prm::run(&args),
+        "gsd" => gsd::run(&args),
+        "sweep" => sweep::run(&args),
         "single" => single::run(&args),
         _ => {
             eprintln!("usage: pbv <codec|...> --out FILE --seed N --tier quick|thorough");
